@@ -39,6 +39,7 @@ func isCallTo(v ssa.Value, name string) (*ssa.Call, bool) {
 
 func runBuild(c *Ctx) {
 	c.runKind()
+	c.runValueListOrder()
 	p := c.P
 	bf := c.role("BUILD", "BuildFunc")
 	nf := c.role("BUILD", "NewFunc")
@@ -236,6 +237,12 @@ func runBuild(c *Ctx) {
 			}
 			cl, ok := e.(*ssa.Call)
 			if !ok {
+				continue
+			}
+			// one exit, the callback's error boxed by the error boxer (ValueOf for a non-nil error, the zero error value
+			// for nil): both ways out in one
+			if cb != nil && len(cl.Common().Args) == 1 && c.errBoxer(cl.Common().StaticCallee()) && core.Strip(cl.Common().Args[0]) == ssa.Value(cb) && len(core.Returns(body)) == 1 {
+				errRet, okRet, singleExit = true, true, true
 				continue
 			}
 			switch core.CalleeName(cl.Common()) {
